@@ -173,7 +173,8 @@ Section Kernels.
   Definition isi_distance_cy (s1 s2 : list F) (ts te m : F) : F :=
     let '((nu1, nu2), evs) := isi_scan_cy ts te s1 s2 in
     let '(last_t, cur, acc) := isi_acc m evs ts (isi_ratio_cy m nu1 nu2) 0 in
-    (acc + cur * (te - last_t)) / (te - ts).
+    (* the trailing piece is only accumulated if it is not empty *)
+    (if last_t <? te then acc + cur * (te - last_t) else acc) / (te - ts).
 
   (* ---------------------------------------------------------------- *)
   (* get_min_dist                                                      *)
@@ -253,7 +254,11 @@ Section Kernels.
         else
           let tf := match r with x1 :: _ => x1 | [] => te end in
           let dtp := get_min_dist tp0 other (fst auxo) (snd auxo) in
-          let dtf := get_min_dist tf other (fst auxo) (snd auxo) in
+          (* a lone spike on t_start keeps its contribution constant (N == 1) *)
+          let dtf := match r with
+                     | _ :: _ => get_min_dist tf other (fst auxo) (snd auxo)
+                     | [] => dtp
+                     end in
           mkSst [x0] r tp0 tf dtp dtf (tf - x0) dtp
     end.
 
@@ -382,7 +387,7 @@ Section Kernels.
   Definition spike_profile_cy := spike_profile_gen t_aux_cy.
 
   (* cython_distances.spike_distance_cython: single pass trapezoid sum.  The
-     closing value is always accumulated (no trailing trim). *)
+     closing piece is accumulated only if t_last < t_end. *)
   Fixpoint spike_acc (evs : list (F * F * F)) (t_last y_start acc : F) : F * F * F :=
     match evs with
     | [] => (t_last, y_start, acc)
@@ -401,7 +406,7 @@ Section Kernels.
     let y0 := dist_at_t (s_isi a0) (s_isi b0) (s_s a0) (s_s b0) m ri in
     let '(t_last, y_start, acc) := spike_acc evs ts y0 0 in
     let y_end := dist_at_t (s_isi af) (s_isi bf) (s_dtf af) (s_dtf bf) m ri in
-    (acc + nhalfmul (y_start + y_end) * (te - t_last)) / (te - ts).
+    (if t_last <? te then acc + nhalfmul (y_start + y_end) * (te - t_last) else acc) / (te - ts).
 
   (* ---------------------------------------------------------------- *)
   (* get_tau: the coincidence window                                   *)
